@@ -369,7 +369,7 @@ impl Property for P {
     }
     fn rule(&self) -> String {
         "Generated: a matched baseline session (48 suites x 4 modes) plus exactly one perturbation of the receiver: info/psk/psk_id {flip bit k, append/prepend 0x00, drop last, swap two bytes, empty<->non-empty}, boundary shifts of 1..3 bytes between info|psk_id and psk|psk_id, psk<->psk_id swapped, mode swapped with identical data (incl. Base<->Psk(empty bundle), Auth<->AuthPsk(empty bundle)), KDF swapped, AEAD swapped (incl. AES-256-GCM<->ChaCha20Poly1305 and sealing<->export-only), recipient key with a different public key, another valid enc, same-DH/different-bytes enc (NIST y->p-y, X25519 bit 255), different expected sender key. \
-         Swept: every bit of info/psk/psk_id (<=24-byte strings) in Psk mode per KEM; all KDF x AEAD swaps per KEM; all 12 mode swaps per KEM; same-DH enc for every KEM x mode; every length 1..=1500 (every 5th up to 2600) of info, psk and psk_id with the receiver's copy differing only at its end (last bit, one byte fewer, one zero byte more). \
+         Swept: every bit of info/psk/psk_id (<=24-byte strings) in Psk mode per KEM; all KDF x AEAD swaps per KEM; all 12 mode swaps per KEM; same-DH enc for every KEM x mode; every length 1..=1500 (every 5th up to 2600, and 17 lengths just above the page/chunk sizes 4 KiB..128 KiB) of info, psk and psk_id with the receiver's copy differing only at its end (last bit, one byte fewer, one zero byte more). \
          Oracle: the perturbed receiver fails setup, or opens none of 3 sender ciphertexts (tried at position 0 and at the matching position) and every one of 3 exports (L>=16) differs; positive control first. \
          Non-trivial: minimal perturbations (single bit/byte, boundary shift, field swap, mode swap, same-DH enc, equal-size AEAD swap)."
             .into()
@@ -452,11 +452,12 @@ impl Property for P {
                 samedh.push(Case { sess: gen::cell_session(s, m, 11), pert: Pert::RecipientKey });
             }
         }
-        // every length 1..=1500 (then every 5th up to 2600) of info, psk and psk_id, the receiver's copy
+        // every length 1..=1500 (then every 5th up to 2600, then lengths just above every plausible chunk
+        // or page size up to 128 KiB: input fed to the hash in pieces loses its remainder) of info, psk and psk_id, the receiver's copy
         // differing at the very end (last bit / one byte fewer / one zero byte more): a key schedule
         // that silently hashes only a prefix of a long input makes the two sides agree
         let mut tails = Vec::new();
-        for l in (1..=1500usize).chain((1505..=2600).step_by(5)) {
+        for l in (1..=1500usize).chain((1505..=2600).step_by(5)).chain([4095usize, 4096, 4097, 4098, 5000, 8191, 8193, 10000, 12289, 16385, 20000, 32769, 40001, 65535, 65537, 70001, 131073]) {
             let s = Suite { kem: KemId::X25519, kdf: KdfId::ALL[l % 3], aead: if l % 7 == 0 { AeadId::Export } else { AeadId::ChaCha } };
             let bp = match l % 3 {
                 0 => BytePert::AppendZero,
